@@ -19,7 +19,12 @@ never leak into the explored state):
 * Q1 a read-only query (validate / schema / to_json / keys / to_simple_grammar / repr) leaves the definition
   and an already filled schema cache unchanged;
 * A1 editing a copy never changes the original (and vice versa: the copy behaves as a grammar of its own);
-  A2 ``update(other)`` and later edits never change ``other``; A3 pickling never changes the pickled grammar;
+  A2 ``update(other)`` and later edits never change ``other``: the source is offered in every cache state (fresh,
+  schema read, validated once); its canonical state incl. the (deep) cached schema dict is compared before/after
+  the update, and its *uses* after the update (verdicts on its data alphabet, ``schema``, ``to_json()``,
+  ``to_simple_grammar()``, a pickle round-trip and the verdicts of the restored grammar) are compared with those of
+  a twin source in the same cache state that was never passed to ``update``;
+  A3 pickling never changes the pickled grammar;
 * R1 operations on names that are not in the grammar are refused (KeyError / ValueError) by every class;
 * E1 a legal operation does not raise.
 
@@ -69,6 +74,7 @@ VALUE_TABLES = [
 ]
 DEEP_FILES = ("Discipline_options.json", "RosenMF_input.json", "SobieskiStructure_input.json", "PropaneComb1_output.json",
               "Mission_output.json", "SobieskiMission_output.json")
+SOURCE_CACHE_STATES = ("fresh", "schema", "validated")
 QUERIES = ("q_validate", "q_schema", "q_to_json", "q_keys", "q_to_simple", "q_repr")
 CACHE_FILLERS = ("q_validate", "q_schema", "q_to_json", "q_to_simple", "copy", "pickle")
 # operations a follower shares with the JSON grammar (everything else drops it)
@@ -429,7 +435,8 @@ class Spec:
         ops += [["data", {c: "arr"}, False], ["data", {c: "s", a: "f"}, False]]
         if a in E:
             ops += [["names", [a], True], ["types", {a: "float"}, True], ["data", {a: "arr"}, True]]
-        ops += [["update", "oD", False, []], ["update", "oD", False, [b]], ["update", "oT", False, [a]], ["update", "oT", True, []], ["update", "oN", False, []]]
+        for cs in SOURCE_CACHE_STATES:
+            ops += [["update", "oD", False, [], cs], ["update", "oD", False, [b], cs], ["update", "oT", False, [a], cs], ["update", "oT", True, [], cs], ["update", "oN", False, [], cs]]
         ops += [["from_schema", "S1", False], ["from_schema", "S1", True], ["from_file", "S2", False]]
         present = [n for n in st.universe if n in E] + [n for n in E if n not in st.universe]
         missing = next((n for n in st.universe if n not in E), None)
@@ -485,12 +492,16 @@ class Spec:
             self._files[k] = str(p)
         return self._files[k]
 
-    def _other(self, cls, kind, st):
+    def _other(self, cls, kind, st, cache_state="fresh"):
         g = _classes()[cls]("o")
         m = Model()
         for op in _other_ops(kind, st.names):
             g = self._do(cls, g, op, st, None)
             self._model_do(m, op, st)
+        if cache_state == "schema" and cls == J:
+            g.schema  # noqa: B018
+        elif cache_state == "validated":
+            g.validate(_valid_data(_View(m, st)), raise_exception=False)
         return g, m
 
     def _do(self, cls, g, op, st, info):
@@ -504,10 +515,14 @@ class Spec:
         elif k == "data":
             g.update_from_data({n: val(t) for n, t in op[1].items()}, merge=op[2])
         elif k == "update":
-            other, _ = self._other(cls, op[1], st)
+            cs = op[4] if len(op) > 4 else "fresh"
+            other, om = self._other(cls, op[1], st, cs)
             if info is not None:
                 info["other"] = other
+                info["source"] = {"model": om, "cache_state": cs, "kind": op[1], "pre": canon_of(cls, other)}
             g.update(other, excluded_names=list(op[3]), merge=op[2])
+            if info is not None:
+                info["source"]["post"] = canon_of(cls, other)
         elif k == "from_schema":
             g.update_from_schema(json.loads(json.dumps(_schemas(st.names)[op[1]])), merge=op[2])
         elif k == "from_file":
@@ -635,7 +650,7 @@ class Spec:
             if k == "copy":
                 st.shadows.append(("copy-source", cls, info.pop("source"), None))
             if k == "update" and "other" in info:
-                st.shadows.append((f"update-source:{op[1]}", cls, info.pop("other"), None))
+                st.shadows.append((f"update-source:{op[1]}:{info['source']['cache_state']}", cls, info["other"], info["source"]["post"]))
         if k == "copy":
             st.is_copy = True
         # the reference definition follows the primary; an unexpected exception of the primary freezes it
@@ -655,6 +670,7 @@ class Spec:
         # shadows: record the canon at creation
         st.shadows = [(lab, c, g, canon_of(c, g) if cn is None else cn) for lab, c, g, cn in st.shadows]
         st.last = last
+        st.spec = self
         st.canon_ = self._canon(st)
         stale = any(n not in g for _, g in st.alive() for n in g.from_namespaced)
         last["stale_ns_entries"] = stale
@@ -680,7 +696,13 @@ class Spec:
         return (
             tuple((c, canon_of(c, g)) for c, g in st.alive()),
             tuple(sorted(st.dropped)),
-            tuple((lab, c, explore.digest(cn if cn is not None else canon_of(c, g))) for lab, c, g, cn in st.shadows),
+            # the cache state in which an update source was offered is probed at the update itself (check_state) and
+            # is not a reason to keep successor states apart: histories continue from the first (fresh) variant
+            tuple(
+                (lab.rsplit(":", 1)[0], c, explore.digest((cn if cn is not None else canon_of(c, g))[0])) if lab.startswith("update-source")
+                else (lab, c, explore.digest(cn if cn is not None else canon_of(c, g)))
+                for lab, c, g, cn in st.shadows
+            ),
             st.is_copy,
         )
 
@@ -697,6 +719,43 @@ class Spec:
     # -- oracle ----------------------------------------------------------------------------------
     def check(self, st: St, hist):
         return [(sig, f"{msg}\n  history={json.dumps(hist)}") for sig, msg in check_state(st, hist[-1])]
+
+
+class _View:
+    """What the data generators need, for a grammar other than the explored one (an update source)."""
+
+    def __init__(self, model, st):
+        self.model, self.values, self.universe = model, st.values, st.universe
+
+
+def _uses(cls, g, data) -> dict:
+    """Everything a later user of ``g`` can see, in a fixed order (the validator is compiled first)."""
+    out = {}
+
+    def obs(key, fn):
+        try:
+            out[key] = fn()
+        except Exception as e:  # noqa: BLE001
+            out[key] = f"raised {type(e).__name__}: {str(e)[:120]}"
+
+    obs("verdicts", lambda: [_verdict(g, d) for d in data])
+    if cls == J:
+        obs("schema", lambda: json.dumps(g.schema, sort_keys=True, default=str))
+        obs("to_json", lambda: json.dumps(json.loads(g.to_json()), sort_keys=True))
+
+    def simple():
+        s_ = g.to_simple_grammar()
+        return (sorted((n, getattr(t, "__name__", repr(t))) for n, t in s_.items()), sorted(s_.required_names), sorted((n, _tok(v)) for n, v in s_.defaults.items()))
+
+    obs("to_simple_grammar", simple)
+
+    def pickled():
+        r = pickle.loads(pickle.dumps(g))
+        return (canon_of(cls, r)[0], sorted(r.keys()), [_verdict(r, d) for d in data], json.dumps(json.loads(r.to_json()), sort_keys=True) if cls == J else None)
+
+    obs("pickle-round-trip", pickled)
+    obs("state-after-uses", lambda: canon_of(cls, g))
+    return out
 
 
 def _valid_data(st: St) -> dict:
@@ -938,6 +997,66 @@ def check_state(st: St, op) -> list:
                 break
     last["stale_ns"] = stale_ns
     last["n_data"] = len(data)
+
+    # A2 (source side of update): evaluated last, the uses fill the caches of the source
+    if k == "update":
+        for cls, info in last.get("info", {}).items():
+            src = info.get("source")
+            if not src or "post" not in src:
+                continue
+            other, cs = info["other"], src["cache_state"]
+            twin, _ = st.spec._other(cls, src["kind"], st, cs)
+            sig = {"source_cache": cs}
+            pre, post = src["pre"], src["post"]
+            if pre[0] != post[0]:
+                diff = [f"{x} -> {y}" for x, y in zip(_flat(pre[0]), _flat(post[0])) if x != y]
+                add("A2-update-changes-source", cls, f"definition of the source ({cs}): " + "; ".join(diff)[:600], observed="definition", **sig)
+            elif cls == J:
+                # a cache may be filled by the update (reading source.schema is legitimate), but only with what the
+                # source itself would have put there; a filled cache must not change, a compiled validator must stay
+                if pre[1][0] is None and post[1][0] is not None:
+                    twin.schema  # noqa: B018
+                    expected = canon_of(cls, twin)[1][0]
+                    twin, _ = st.spec._other(cls, src["kind"], st, cs)
+                else:
+                    expected = pre[1][0]
+                if post[1][0] != expected:
+                    add("A2-update-changes-source", cls, f"cached schema dict of the source ({cs}): before={pre[1][0]} after={post[1][0]} expected={expected}", observed="cached-schema", **sig)
+                if pre[1][1] and not post[1][1]:
+                    add("A2-update-changes-source", cls, f"the compiled validator of the source ({cs}) is gone", observed="validator", **sig)
+            elif pre[1] != post[1]:
+                add("A2-update-changes-source", cls, f"caches of the source ({cs}): {pre[1]} -> {post[1]}", observed="caches", **sig)
+            sdata = gen_data(_View(src["model"], st))
+            used, ref = _uses(cls, other, sdata), _uses(cls, twin, sdata)
+            for key in used:
+                if used[key] != ref[key]:
+                    detail = ""
+                    if key == "verdicts" and isinstance(used[key], list) and isinstance(ref[key], list):
+                        i = next(i for i, (x, y) in enumerate(zip(used[key], ref[key])) if x != y)
+                        detail = f" first difference: validate({_show(sdata[i])}) source={used[key][i]} twin={ref[key][i]};"
+                    add("A2-update-changes-source", cls, f"{key} of the source ({cs}) differs from a twin never passed to update:{detail} source={str(used[key])[:400]} twin={str(ref[key])[:400]}", observed=key, **sig)
+                    break
+            # later edits of the target (a throw-away at this point) never change the source, whatever its caches hold
+            target = st.gs.get(cls)
+            if target is not None and isinstance(used.get("state-after-uses"), tuple):
+                try:
+                    for i, n in enumerate(list(target.keys())):
+                        target.rename_element(n, f"zz_tmp{i}")
+                    if len(target) > 1:
+                        target.restrict_to(list(target.keys())[:1])
+                    target.clear()
+                except Exception:  # noqa: BLE001  the target's own behaviour is judged by the exploration, not here
+                    pass
+                now = canon_of(cls, other)
+                if now != used["state-after-uses"]:
+                    diff = [f"{x} -> {y}" for x, y in zip(_flat(used["state-after-uses"]), _flat(now)) if x != y]
+                    add("A2-update-changes-source", cls, f"renaming/restricting/clearing the updated grammar changed the source ({cs}): " + "; ".join(diff)[:600], observed="later-edit-of-target", **sig)
+            exp = [src["model"].verdict(cls, d) for d in sdata]
+            if isinstance(used["verdicts"], list):
+                for d, e, a_ in zip(sdata, exp, used["verdicts"]):
+                    if e is not None and e != a_:
+                        add("A2-update-changes-source", cls, f"after the update the source ({cs}) gives validate({_show(d)})={a_}, its reference definition says {e}", observed="verdict-vs-reference", **sig)
+                        break
     return out
 
 
